@@ -98,7 +98,7 @@ fn run_trunc(c: &TruncCase) -> (u64, u64, usize, Result<(), Failure>) {
     let book = build_book(&c.book);
     let dir = crate::engine::scratch_dir();
     let path = dir.join(format!("trunc-{}-{:?}.json", std::process::id(), std::thread::current().id()));
-    let (assets, levels) = (c.market_assets as usize, if c.market_assets == 0 { c.book.levels } else { market_levels_for(c.book.levels) });
+    let (assets, levels) = (c.market_assets as usize, if c.market_assets == 0 { c.book.levels } else if c.market_assets > 4 { if c.book.levels % 2 == 0 { 10 } else { 3 } } else { market_levels_for(c.book.levels) });
     // write the snapshot through the documented file route
     let text: Vec<u8> = if assets == 0 {
         if let Err(e) = book.save_json(&path, c.pretty) {
@@ -232,27 +232,27 @@ pub fn parts(id: &'static str, tier: Tier) -> Option<(Vec<Part<Case>>, String)> 
                     description: format!("every sequence of exactly {} operations on Market<2,3>, each = (asset 0 or 1) x (the 16 core create-and-place ops of C01 or cancel of local id 0..2), clock advanced before every op, then market orders draining both assets; both assets share local ids by construction", depth),
                 },
             };
-            let mut v = vec![ex, market_part("market-random-dense", c.clone(), 4, tier.pick(120_000, 2_500_000))];
+            let mut v = vec![ex, market_part("market-random-dense", c.clone(), 16, tier.pick(120_000, 2_500_000))];
             let mut dd = c.clone();
             dd.direct_pct = 35;
             dd.w_trading = 8;
             // a market snapshot / restore in the middle of a history: afterwards each asset must still equal
             // its (never restored) stand-alone book
             dd.w_reload = 2;
-            v.push(market_part("market-random-dense-direct-book-access", dd, 4, tier.pick(60_000, 1_200_000)));
+            v.push(market_part("market-random-dense-direct-book-access", dd, 16, tier.pick(60_000, 1_200_000)));
             let mut z = c.clone();
             z.zero_vol_pct = 12;
             v.push(market_part("market-random-dense-with-zero-volumes", z, 4, tier.pick(40_000, 800_000)));
             c.wide = true;
             v.push(market_part("market-random-wide", c, 4, tier.pick(40_000, 800_000)));
-            Some((v, "A market case is one interleaved operation history over 1..4 assets with per-asset tick sizes on Market<A,L>, driven in lock-step with A stand-alone real OrderBook<L> that receive only their own operations and every clock / trading broadcast; after EVERY operation each asset's full snapshot must equal its stand-alone book's, returned ids must be (asset, local id), and every all-asset query must equal the per-asset values in asset order. Non-trivial: >= 2 assets hold resting orders and orders with equal local ids differ across assets.".to_string()))
+            Some((v, "A market case is one interleaved operation history over 1..4 assets (8, 11, 12 or 16 assets in 15 % of the cases of two parts) with per-asset tick sizes on Market<A,L>, driven in lock-step with A stand-alone real OrderBook<L> that receive only their own operations and every clock / trading broadcast; after EVERY operation each asset's full snapshot must equal its stand-alone book's, returned ids must be (asset, local id), and every all-asset query must equal the per-asset values in asset order. Non-trivial: >= 2 assets hold resting orders and orders with equal local ids differ across assets.".to_string()))
         }
         "C07" => {
             let mut c = GenCfg::base(len);
             c.w_modify = 10;
             c.w_reload = 6;
             c.w_trading = 2;
-            let mut v = vec![market_part("market-random-reload", c.clone(), 4, tier.pick(30_000, 600_000))];
+            let mut v = vec![market_part("market-random-reload", c.clone(), 16, tier.pick(30_000, 600_000))];
             let mut b = GenCfg::base(tier.pick(40, 120));
             b.w_modify = 10;
             b.w_trading = 3;
@@ -268,7 +268,7 @@ pub fn parts(id: &'static str, tier: Tier) -> Option<(Vec<Part<Case>>, String)> 
                     name: format!("truncation-{}", if wide { "wide" } else { "dense" }),
                     kind: PartKind::Random {
                         make: Box::new(move || {
-                            (book_case_strategy(b.clone()), prop_oneof![3 => Just(0u8), 1 => 1u8..=4], any::<bool>(), proptest::collection::vec(any::<u16>(), n_picks))
+                            (book_case_strategy(b.clone()), prop_oneof![6 => Just(0u8), 2 => 1u8..=4, 1 => proptest::sample::select(vec![8u8, 11, 12, 16])], any::<bool>(), proptest::collection::vec(any::<u16>(), n_picks))
                                 .prop_map(|(book, market_assets, pretty, picks)| Case::Trunc(TruncCase { book, market_assets, pretty, picks }))
                                 .boxed()
                         }),
@@ -276,14 +276,14 @@ pub fn parts(id: &'static str, tier: Tier) -> Option<(Vec<Part<Case>>, String)> 
                     },
                 });
             }
-            Some((v, "Market cases: Market<1..4, L> snapshots at generated positions, original and reloaded market driven in lock-step (non-trivial: snapshot with >= 2 resting orders at one price and trades after the reload). Truncation cases: the snapshot file of a generated book / market state (save_json, compact or pretty) is cut at every byte offset (files <= 700 bytes) or at the first 160, last 160 and 96 (quick) / 512 (thorough) generated offsets, each truncated file passed to load_json, which must return Err (Ok or a panic is a violation); additionally the prefixes (all of them for snapshots <= 1500 bytes, else the same offsets) are parsed through the in-memory route (non-trivial: snapshot longer than 200 bytes).".to_string()))
+            Some((v, "Market cases: Market<A, L> snapshots (A in 1..4, and 8, 11, 12, 16 in 15 % of the cases) at generated positions, original and reloaded market driven in lock-step (non-trivial: snapshot with >= 2 resting orders at one price and trades after the reload). Truncation cases: the snapshot file of a generated book / market state (save_json, compact or pretty) is cut at every byte offset (files <= 700 bytes) or at the first 160, last 160 and 96 (quick) / 512 (thorough) generated offsets, each truncated file passed to load_json, which must return Err (Ok or a panic is a violation); additionally the prefixes (all of them for snapshots <= 1500 bytes, else the same offsets) are parsed through the in-memory route (non-trivial: snapshot longer than 200 bytes).".to_string()))
         }
         "C12" => {
             let mut c = GenCfg::base(len);
             c.offgrid = true;
             c.w_modify = 16;
             c.w_create = 10;
-            Some((vec![market_part("market-random-arbitrary-prices", c, 4, tier.pick(40_000, 800_000))], "Market cases: creations and modifications with arbitrary prices through Market<1..4,L>; creation iff-rule, returned id (asset, next local id), rejected creation leaves every asset's snapshot unchanged, every limit price on its asset's grid after every op.".to_string()))
+            Some((vec![market_part("market-random-arbitrary-prices", c, 16, tier.pick(40_000, 800_000))], "Market cases: creations and modifications with arbitrary prices through Market<1..4,L>; creation iff-rule, returned id (asset, next local id), rejected creation leaves every asset's snapshot unchanged, every limit price on its asset's grid after every op.".to_string()))
         }
         "C13" => {
             let mut c = GenCfg::base(len);
@@ -292,7 +292,7 @@ pub fn parts(id: &'static str, tier: Tier) -> Option<(Vec<Part<Case>>, String)> 
             c.start_off_pct = 30;
             let mut dd = c.clone();
             dd.direct_pct = 35;
-            Some((vec![market_part("market-random-toggles", c, 4, tier.pick(40_000, 800_000)), market_part("market-random-toggles-direct-book-access", dd, 4, tier.pick(40_000, 800_000))], "Market cases: trading toggled at market level (fan-out to every asset): toggle changes nothing, no trade is logged on any asset while disabled, market orders are rejected.".to_string()))
+            Some((vec![market_part("market-random-toggles", c, 16, tier.pick(40_000, 800_000)), market_part("market-random-toggles-direct-book-access", dd, 4, tier.pick(40_000, 800_000))], "Market cases: trading toggled at market level (fan-out to every asset): toggle changes nothing, no trade is logged on any asset while disabled, market orders are rejected.".to_string()))
         }
         _ => None,
     }
